@@ -458,7 +458,20 @@ def _agg_stmt(f, op):
 
 
 def _array_len(f, op, gen):
-    """length of a fixed-size array receiver: from the generic args of Index or the operand type"""
+    """length of a fixed-size array receiver: from the generic args of Index, the operand type, or the array the slice
+    was made from (`&buf` of `let buf = [0u8; 32]` passed to an inlined helper as &[u8])"""
+    try:
+        x = strip(Resolver(f, max_depth=16).operand(op))
+        while x[0] == "cast":
+            x = strip(x[2])
+        if x[0] == "repeat":
+            m = re.match(r"\s*(\d+)", str(x[2]))
+            if m:
+                return int(m.group(1))
+        if x[0] == "agg" and x[1][0] == "array":
+            return len(x[2])
+    except RecursionError:
+        pass
     for g in gen:
         m = re.search(r"\[[^;\]]+; (\d+)\]", g)
         if m:
@@ -626,7 +639,7 @@ def _slice_len_expr(t):
                 # a .. a + n
                 h = hi
                 if h[0] == "binop" and h[1] == "Add" and h[2] == lo:
-                    return tree_str(h[3])
+                    return str(h[3][2]) if h[3][0] == "const" and isinstance(h[3][2], int) else tree_str(h[3])
                 return tree_str(("binop", "Sub", hi, lo))
             if r[1][2] == "RangeFrom":
                 lo = strip_deep(r[2][0])
